@@ -81,6 +81,19 @@ func Contradictions(c *q.Ctx) {
 	if len(selfs) == 0 {
 		c.OK("K1d", "packages of the anchored functions", "no comparison of a value with itself", "-", fmt.Sprintf("%d package(s) swept", len(pkgs)))
 	}
+	// K17: the buffer an iterator hands out is not kept beyond the iteration
+	rets, ncalls := q.IterBufferRetained(c.P, in)
+	for _, r := range rets {
+		c.Sites++
+		if why, ok := iterRetainOK[load.QualName(q.Top(r.Fn))]; ok {
+			c.OK("K17", load.QualName(q.Top(r.Fn)), "iterator buffer kept: "+r.How, c.At(r.At), "confirmed harmless: "+why)
+			continue
+		}
+		c.Fail("K17", load.QualName(q.Top(r.Fn)), "the slice an iterator hands out as Key()/Value() is copied before it is kept", c.At(r.At), r.How+": the iterator re-uses the buffer at the next Next(), the kept slice silently becomes a later entry (copy it: append([]byte{}, k...))")
+	}
+	if len(rets) == 0 {
+		c.OK("K17", "packages of the anchored functions", "no iterator Key()/Value() buffer is kept without a copy", "-", fmt.Sprintf("%d Key()/Value() call(s) followed", ncalls))
+	}
 	// K16: no closure that outlives its loop iteration captures a variable that the loop re-assigns
 	caps := q.LoopCaptures(c.P, in)
 	for _, l := range caps {
@@ -90,4 +103,9 @@ func Contradictions(c *q.Ctx) {
 	if len(caps) == 0 {
 		c.OK("K16", "packages of the anchored functions", "no closure that outlives its iteration captures a variable the loop re-assigns", "-", fmt.Sprintf("%d package(s) swept", len(pkgs)))
 	}
+}
+
+// iterRetainOK: sites where an iterator's buffer is kept and that is confirmed harmless (one line of reason each).
+var iterRetainOK = map[string]string{
+	"kernel/contract/proposal/propose::(*KernMethod).unlockGovernTokensForProposal": "the argument map is built and consumed by ctx.Call inside the same iteration (and the sandbox iterator hands out per-entry slices)",
 }
